@@ -210,7 +210,10 @@ EXPORT errno_t _wcsnatcmp_s_chk(const wchar_t *dest, rsize_t dmax,
         c = d1 + 3 * n1 + 5;
         memcpy(c, dest, n1 * sizeof(wchar_t));
         c[n1] = L'\0';
-        rc = wcsfc_s(d1, 3 * n1 + 5, c, &l1);
+        /* the buffer has room for the longest folding; what is declared to
+           wcsfc_s must stay within its limit */
+        rc = wcsfc_s(d1, 3 * n1 + 5 > RSIZE_MAX_WSTR ? RSIZE_MAX_WSTR : 3 * n1 + 5,
+                     c, &l1);
         if (rc != EOK) {
             free(d1);
             return rc;
@@ -226,7 +229,8 @@ EXPORT errno_t _wcsnatcmp_s_chk(const wchar_t *dest, rsize_t dmax,
         c = d2 + 3 * n2 + 5;
         memcpy(c, src, n2 * sizeof(wchar_t));
         c[n2] = L'\0';
-        rc = wcsfc_s(d2, 3 * n2 + 5, c, &l2);
+        rc = wcsfc_s(d2, 3 * n2 + 5 > RSIZE_MAX_WSTR ? RSIZE_MAX_WSTR : 3 * n2 + 5,
+                     c, &l2);
         if (rc != EOK) {
             free(d1);
             free(d2);
